@@ -74,8 +74,8 @@ MUTANTS = [
          "        self.spherical_triangles[index] = self._get_spherical_triangle(face_triangle_index, origin_id, reflected)\n        return self.spherical_triangles[index]\n",
          "        tri = self.spherical_triangles[index] = []\n        tri.extend(self._get_spherical_triangle(face_triangle_index, origin_id, reflected))\n        return tri\n"),
     ], 3000),
-    ('c17_reflected_face_triangle_slot_collision', 'C17', 'violation', [
-        ('a5/projections/dodecahedron.py', "            index += 20 if squashed else 10\n", "            index += 10\n"),
+    ('c17_spherical_triangle_key_ignores_reflected', 'C17', 'violation', [
+        ('a5/projections/dodecahedron.py', "        if reflected:\n            index += 120\n", "        if reflected:\n            index += 0\n"),
     ], 3000),
 ]
 
